@@ -26,16 +26,16 @@ type pathEnd struct{ kind, msg string }
 
 // Config holds the bounds of one run.
 type Config struct {
-	MaxSteps     int // SSA instructions per path
-	MaxDecisions int // solver-checked decisions per path
-	MaxPaths     int // total paths
-	Workers      int
-	Solver       string // z3 | z3-new | cvc5
-	CrossCheck   []string
-	Timeout      time.Duration
-	Trace        bool
-	StopOnFirst  bool
-	PerLabelCap  int // stop recording more than this many violations per label (still explored)
+	MaxSteps       int // SSA instructions per path
+	MaxDecisions   int // solver-checked decisions per path
+	MaxPaths       int // total paths
+	Workers        int
+	Solver         string // z3 | z3-new | cvc5
+	CrossCheck     []string
+	Timeout        time.Duration
+	Trace          bool
+	StopOnFirst    bool
+	PerLabelCap    int // stop recording more than this many violations per label (still explored)
 	KeepAllSamples bool
 }
 
@@ -98,42 +98,42 @@ type RunResult struct {
 }
 
 type pathState struct {
-	eng       *Engine
-	solver    *smt.Solver
-	prefix    []int
-	pos       int
-	decisions []int
-	siblings  [][]int
-	pc        []*smt.Term
-	model     map[string]uint64 // satisfies pc when non-nil
-	vars      []*smt.Term
-	inputs    []*Input
-	nameCount map[string]int
-	steps     int
-	reach     []string
-	viols     []Violation
-	forks     int
-	mapOrder  bool
-	flags     map[string]value
-	notes     map[string]string
-	store     map[string]value // per-path scratch for stubs
-	harness   string
-	curPos    func() string
-	writes    []string
-	trackW    bool
-	gcells    map[*value]bool
-	gmaps     map[*omap]bool
-	dom       map[*smt.Term]*[4]uint64 // over-approximate value set of each symbolic byte
-	dirty     bool
-	skipped   int
+	eng                      *Engine
+	solver                   *smt.Solver
+	prefix                   []int
+	pos                      int
+	decisions                []int
+	siblings                 [][]int
+	pc                       []*smt.Term
+	model                    map[string]uint64 // satisfies pc when non-nil
+	vars                     []*smt.Term
+	inputs                   []*Input
+	nameCount                map[string]int
+	steps                    int
+	reach                    []string
+	viols                    []Violation
+	forks                    int
+	mapOrder                 bool
+	flags                    map[string]value
+	notes                    map[string]string
+	store                    map[string]value // per-path scratch for stubs
+	harness                  string
+	curPos                   func() string
+	writes                   []string
+	trackW                   bool
+	gcells                   map[*value]bool
+	gmaps                    map[*omap]bool
+	dom                      map[*smt.Term]*[4]uint64 // over-approximate value set of each symbolic byte
+	dirty                    bool
+	skipped                  int
 	panicSite, recoveredSite string
-	noFaults     bool
-	atomics      int
-	locked       int
-	orderMode    int
-	orderGlobalOnly bool
-	sitePicked   bool
-	sched     *scheduler
+	noFaults                 bool
+	atomics                  int
+	locked                   int
+	orderMode                int
+	orderGlobalOnly          bool
+	sitePicked               bool
+	sched                    *scheduler
 }
 
 func sanitize(name string) string {
